@@ -9,3 +9,19 @@ Definition find_bad_struct (l : list gstruct) : list (string * string) :=
 
 Theorem all_shipped_follow_spec : forallb struct_follows_spec all_gostructs = true.
 Proof. vm_compute. reflexivity. Qed.
+
+(* every shipped codec is well-formed in the sense of CodecProofs (sizes did not wrap), so the
+   C04 theorems apply to every shipped message type *)
+From GM Require Import CodecProofs.
+Definition codec_wf_b (c : codec) : bool :=
+  Nat.eqb (N.to_nat (c_size_ext c)) (total_len true (c_fields c)) &&
+  Nat.eqb (N.to_nat (c_size_normal c)) (total_len false (c_fields c)).
+Lemma codec_wf_b_sound c : codec_wf_b c = true -> codec_wf c.
+Proof.
+  unfold codec_wf_b, codec_wf. intros H. apply andb_prop in H. destruct H as [A B].
+  apply PeanoNat.Nat.eqb_eq in A. apply PeanoNat.Nat.eqb_eq in B. auto.
+Qed.
+Definition struct_codec_wf (g : gostruct) : bool :=
+  match initialize g with Ok c => codec_wf_b c | _ => false end.
+Theorem all_shipped_codecs_wf : forallb struct_codec_wf all_gostructs = true.
+Proof. vm_cast_no_check (eq_refl true). Qed.
